@@ -6,7 +6,7 @@ CONSTANTS
   Lookbacks = {1, 2}
   Times = {4}
   Readers = {}
-  MaxUpd = 1
+  MaxUpd = 2
   ZoneAware = FALSE
   Addrs = {1, 2}
   Zones = {1}
